@@ -307,6 +307,20 @@ func collectProbes(ops []Op, into *[]probe, seen map[string]bool) {
 				for _, o := range issuers {
 					add(o, s)
 				}
+				// the pair under another issuer that reads the same once name and serial are written one after the other:
+				// "CN=dev ca 1" + "25" and "CN=dev ca 12" + "5"
+				nr := n.RDN()
+				joined := nr.String() + s.String()
+				for _, o := range issuers {
+					or := o.RDN()
+					os := or.String()
+					if os != nr.String() && strings.HasPrefix(joined, os) {
+						rest := joined[len(os):]
+						if v, ok := new(big.Int).SetString(rest, 10); ok && rest != "" && (rest == "0" || rest[0] != '0') && rest[0] != '-' {
+							add(o, v)
+						}
+					}
+				}
 			}
 			walk2(op.Sub)
 		}
@@ -433,6 +447,12 @@ func drawIssuer(t *rapid.T, label string) gen.NameSpec {
 			{{{T: "C", V: "DE"}}, {{T: "O", V: "Acme"}}, {{T: "CN", V: "ca_"}}},
 			{{{T: "O", V: "Acme"}}, {{T: "C", V: "DE"}}, {{T: "CN", V: "ca_1"}}},
 			{{{T: "C", V: "DE"}}, {{T: "O", V: "Acme"}, {T: "CN", V: "ca_1"}}},
+			// names whose string form ends in digits, one a prefix of the other
+			{{{T: "CN", V: "dev ca 1"}}},
+			{{{T: "CN", V: "dev ca 12"}}},
+			{{{T: "CN", V: "dev ca 1"}}},
+			{{{T: "CN", V: "dev ca 12"}}},
+			{{{T: "CN", V: "dev ca 125"}}},
 		}).Draw(t, label+"_near")
 	default:
 		return gen.DrawName(t, label, 0)
@@ -519,7 +539,7 @@ var spec = ev.Spec[Case]{
 	ID:   "C18",
 	Gen:  genCase,
 	Run:  runCase,
-	Rule: "rapid draws a history of up to 40 store operations {start(meta), insert(issuer, serial 1..20 bytes, UTC/Generalized date, 0..3 extensions), ext-meta(cRLNumber|none), signer(cert), locations(CDP list|url|file), replace-with(a second store built by its own ops), close+reopen(disk)}; issuers include names differing minimally from each other (extra RDN, trailing '_', RDN order, multi-valued RDN, empty name) and earlier serials are re-used under other issuers. The history is applied in lock-step to a MapStore, a LevelDbStore and a reference model; after EVERY step every getter of both stores is compared with the model for all inserted pairs and their neighbours (+-1, x256, same serial under every other issuer). Non-trivial: >= 1 insert and a replace-after-insert or a reopen; distinct by (multiset of op kinds, inserts, probes).",
+	Rule: "rapid draws a history of up to 40 store operations {start(meta), insert(issuer, serial 1..20 bytes, UTC/Generalized date, 0..3 extensions), ext-meta(cRLNumber|none), signer(cert), locations(CDP list|url|file), replace-with(a second store built by its own ops), close+reopen(disk)}; issuers include names differing minimally from each other (extra RDN, trailing '_', RDN order, multi-valued RDN, empty name) and earlier serials are re-used under other issuers. The history is applied in lock-step to a MapStore, a LevelDbStore and a reference model; after EVERY step every getter of both stores is compared with the model for all inserted pairs and their neighbours (+-1, x256, same serial under every other issuer, and the pair under another issuer that reads the same when name and serial are concatenated). Non-trivial: >= 1 insert and a replace-after-insert or a reopen; distinct by (multiset of op kinds, inserts, probes).",
 	Assumptions: []string{
 		"FNV-64 key collisions are outside the claim (none is generated by chance)",
 		"meta times are in the UTCTime range (the profile of C06), as the reader can only produce those",
